@@ -17,6 +17,11 @@ fn seqno_filter(item_seqno: SeqNo, seqno: SeqNo) -> /*+*/(r: /*-*/bool/*+*/) ens
 }
 //@ END
 
+/// TRUSTED std contracts (so that equivalent formulations of the filters remain decidable)
+pub assume_specification<T, E, F: FnOnce(T) -> bool>[ Result::<T, E>::is_ok_and ](r: Result<T, E>, f: F) -> (b: bool)
+    requires r is Ok ==> call_requires(f, (r->Ok_0,)),
+    ensures r is Err ==> !b, r is Ok ==> call_ensures(f, (r->Ok_0,), b);
+
 /// what every per-source filter of a scan must compute
 pub open spec fn passes(item: Item, seqno: SeqNo) -> bool { match item { Ok(v) => v.key.seqno < seqno, Err(_) => true } }
 
@@ -26,7 +31,7 @@ fn table_filter(it: &Item, seqno: SeqNo) -> (b: bool)
     ensures b == passes(*it, seqno)
 {
     let f =
-//@ FROM src/range.rs :: impl TreeIter :: fn create_range :: CLOSURE 1 `move | item | match item` :: OBL C10.7, C02.8
+//@ FROM src/range.rs :: impl TreeIter :: fn create_range :: CLOSURE 1 `move | item |` :: OBL C10.7, C02.8
         move |item/*+*/: &Item/*-*/| /*+*/-> (b: bool) ensures b == passes(*item, seqno) {/*-*/ match item {
             Ok(item) => seqno_filter(item.key.seqno, seqno),
             Err(_) => true,
@@ -43,7 +48,7 @@ fn run_filter(it: &Item, seqno: SeqNo) -> (b: bool)
     ensures b == passes(*it, seqno)
 {
     let f =
-//@ FROM src/range.rs :: impl TreeIter :: fn create_range :: CLOSURE 2 `move | item | match item` :: OBL C10.7, C02.8
+//@ FROM src/range.rs :: impl TreeIter :: fn create_range :: CLOSURE 2 `move | item |` :: OBL C10.7, C02.8
         move |item/*+*/: &Item/*-*/| /*+*/-> (b: bool) ensures b == passes(*item, seqno) {/*-*/ match item {
             Ok(item) => seqno_filter(item.key.seqno, seqno),
             Err(_) => true,
@@ -60,7 +65,7 @@ fn sealed_filter(it: &InternalValue, seqno: SeqNo) -> (b: bool)
     ensures b == (it.key.seqno < seqno)
 {
     let f =
-//@ FROM src/range.rs :: impl TreeIter :: fn create_range :: CLOSURE 1 `move | item | seqno_filter` :: OBL C02.8
+//@ FROM src/range.rs :: impl TreeIter :: fn create_range :: CLOSURE 3 `move | item |` :: OBL C02.8
         move |item/*+*/: &InternalValue/*-*/| /*+*/-> (b: bool) ensures b == (item.key.seqno < seqno) {/*-*/ seqno_filter(item.key.seqno, seqno)/*+*/ }/*-*/
 //@ END
     ;
@@ -70,7 +75,7 @@ fn active_filter(it: &InternalValue, seqno: SeqNo) -> (b: bool)
     ensures b == (it.key.seqno < seqno)
 {
     let f =
-//@ FROM src/range.rs :: impl TreeIter :: fn create_range :: CLOSURE 2 `move | item | seqno_filter` :: OBL C02.8
+//@ FROM src/range.rs :: impl TreeIter :: fn create_range :: CLOSURE 4 `move | item |` :: OBL C02.8
         move |item/*+*/: &InternalValue/*-*/| /*+*/-> (b: bool) ensures b == (item.key.seqno < seqno) {/*-*/ seqno_filter(item.key.seqno, seqno)/*+*/ }/*-*/
 //@ END
     ;
